@@ -125,14 +125,14 @@ Section Both.
         cbn [tree_val] in H. destruct (tree_val l) as [a|] eqn:Hl; [|discriminate].
         rewrite (IHl _ st eq_refl). cbn [rbind binop_eqb]. rewrite truthy_inj.
         destruct (pv_truthy a); cbn [Bool.eqb].
-        * now apply IHr.
+        * rewrite (IHr _ st H). cbn [rbind]. unfold recheck. now rewrite eqb_reflx.
         * injection H as <-. reflexivity.
       + (* or *)
         cbn [tree_val] in H. destruct (tree_val l) as [a|] eqn:Hl; [|discriminate].
         rewrite (IHl _ st eq_refl). cbn [rbind binop_eqb]. rewrite truthy_inj.
         destruct (pv_truthy a); cbn [Bool.eqb].
         * injection H as <-. reflexivity.
-        * now apply IHr.
+        * rewrite (IHr _ st H). cbn [rbind]. unfold recheck. now rewrite eqb_reflx.
   Qed.
 End Both.
 
